@@ -1393,3 +1393,5 @@ mut("final_recovery_flush_not_reported", ["C02", "C08"], "PAIR-17", patch="final
 mut("file_index_recorded_before_table_open", ["C04", "C08", "C03"], "ORD-21", patch="file_index_recorded_before_table_open.diff")
 mut("merge_step_before_reseek", ["C04", "C03"], "PAIR-8", patch="merge_step_before_reseek.diff")
 mut("trailer_write_error_swallowed", ["C08", "C15"], "ERR-1", patch="trailer_write_error_swallowed.diff")
+mut("revert_D12", ["C08", "C15"], "ERR-", patch="revert_D12_iterators_without_status.diff", note="next/prev log the error that cut the step short and nobody can ask for it")
+mut("get_error_ignores_child_status", ["C15", "C08"], "ERR-4", patch="get_error_ignores_child_status.diff", note="the compaction does not see an error a child iterator met while stepping")
